@@ -88,7 +88,14 @@ type specRun struct {
 	panicMsg string
 }
 
+// long-lived validators, one per mode, reused across documents ("after any other validations")
+var sharedSV = map[bool]*validate.SpecValidator{}
+
 func runSpecOnce(docText []byte, cont bool, in *interner, reg strfmt.Registry) specRun {
+	return runSpec(docText, cont, in, reg, false)
+}
+
+func runSpec(docText []byte, cont bool, in *interner, reg strfmt.Registry, reuse bool) specRun {
 	var res specRun
 	phaseMu.Lock()
 	phaseLog = nil
@@ -99,8 +106,16 @@ func runSpecOnce(docText []byte, cont bool, in *interner, reg strfmt.Registry) s
 			res.out = "loaderr"
 			return
 		}
-		sv := validate.NewSpecValidator(d.Schema(), reg)
-		sv.SetContinueOnErrors(cont)
+		var sv *validate.SpecValidator
+		if reuse && sharedSV[cont] != nil {
+			sv = sharedSV[cont]
+		} else {
+			sv = validate.NewSpecValidator(d.Schema(), reg)
+			sv.SetContinueOnErrors(cont)
+			if reuse {
+				sharedSV[cont] = sv
+			}
+		}
 		errs, warns := sv.Validate(d)
 		if errs == nil || warns == nil {
 			res.out = "nilresult"
@@ -317,7 +332,8 @@ func driveSpec(args []string) error {
 		}
 		for _, cont := range []bool{false, true} {
 			for rep := 0; rep < *repeat; rep++ {
-				res := runSpecOnce(d.text, cont, in, reg)
+				// with repetitions, the last one goes through a validator instance reused across documents
+				res := runSpec(d.text, cont, in, reg, *repeat > 1 && rep == *repeat-1)
 				if res.out == "loaderr" {
 					break
 				}
